@@ -812,35 +812,36 @@ example : (execOp prog codec64 (fresh none) (.compute fun _ _ => .ok 5) { enc :=
 
 end Code
 
-/-! ## The point methods of `TypedStore`, regenerated from the source
+/-! ## The methods of `TypedStore`, regenerated from the source
 
-`harness/c06/xlate_ts` translates the bodies of `TypedStore.Get/Has/Set/Delete/DeletePrefix/Clear` of the working tree into
-terms of `SCode.SStmt` (`Hive/Gen/C06_StoreCode.lean`). -/
+`harness/c06/xlate_ts` translates the bodies of `TypedStore.Get/Has/Set/Delete/Iterate/DeletePrefix/Clear` of the working
+tree into terms of `SCode.SStmt` (`Hive/Gen/C06_StoreCode.lean`). -/
 section StoreCode
 open Hive.Typed.SCode Hive.Gen.C06StoreCode
 
-/-- **The translated point methods of `TypedStore` are the model.**  For every key / value type, codec pair, raw store
-content, key, value, fault vector (store call, key / value encoder, decode positions) and store-error flavour (`w`: bare or
-wrapped, `ErrKeyNotFound` included), running the regenerated method body gives exactly the result, the resulting raw store
-and the call trace of the hand-written `sstep` (`Get/Has/Set/Delete`) resp. of `sdeletePrefix` / `sclear` — hence
-`C06_store_transparent`, `C06_store_failure_atomic`, `C06_store_set_get`, `C06_store_stored_is_last_written` are theorems
-about the code as translated.  The obligation pins which variable every call result lands in and which variable is handed
-on (key bytes vs value bytes), which store method is called, which error variable every guard tests and which value a
-`return` hands out.  (`Iterate` / `IterateKeys` are closures: hand-written model, skeleton obligations, differential run.) -/
+/-- **The translated methods of `TypedStore` are the model.**  For every key / value type, codec pair, raw store content,
+operation (`Get/Has/Set/Delete` and `Iterate` with any prefix, direction and stopping callback), fault vector (store call,
+the store's own iteration failing after n entries, key / value encoder, decode positions) and store-error flavour (`w`:
+bare or wrapped, `ErrKeyNotFound` included), running the regenerated method body gives exactly the result, the resulting
+raw store and the call trace of the hand-written `sstep`; the bodies of `DeletePrefix` / `Clear` give `sdeletePrefix` /
+`sclear` — hence every `C06_store_*` theorem is a theorem about the code as translated.  For `Iterate` the consumer closure
+is a term of its own, run once per entry by the underlying store's loop (`iterLoopC`); the proof shows that closure + loop +
+error plumbing (`innerErr`, `iterationErr`) are the hand-written `iterLoop` over the per-entry decode results
+(`Hive/Proofs/TypedStoreCode.lean`: `consumer_spec`, `iterLoopC_eq` by induction over the entries, `iterate_outer`).
+The obligation pins which variable every call result lands in and which is handed on (key bytes vs value bytes), which
+store method is called, which error variable every guard tests, what the closure assigns to the captured error and what
+it answers the store, and which value a `return` hands out.  (`IterateKeys`: hand-written model, skeleton, differential.) -/
 theorem C06_store_code_refines_model {K V : Type} [Inhabited K] [Inhabited V] (KC : Codec K) (VC : Codec V) (m : Store) (F : SFaults) (w : Bool) :
-    (∀ k, sexecOp w sprog KC VC m (.get k) F = some (sstep KC VC m (.get k) F)) ∧
-    (∀ k, sexecOp w sprog KC VC m (.has k) F = some (sstep KC VC m (.has k) F)) ∧
-    (∀ k v, sexecOp w sprog KC VC m (.set k v) F = some (sstep KC VC m (.set k v) F)) ∧
-    (∀ k, sexecOp w sprog KC VC m (.delete k) F = some (sstep KC VC m (.delete k) F)) ∧
+    (∀ op, sexecOp w sprog KC VC m op F = sstep KC VC m op F) ∧
     (∀ pfx, sexecPass w KC VC sprog.deletePrefix m pfx F = sdeletePrefix m pfx F) ∧
     (∀ pfx, sexecPass w KC VC sprog.clear m pfx F = sclear m F) :=
-  ⟨fun k => scode_get w KC VC m k F, fun k => scode_has w KC VC m k F, fun k v => scode_set w KC VC m k v F,
-   fun k => scode_delete w KC VC m k F, fun pfx => scode_deletePrefix w KC VC m pfx F, fun pfx => scode_clear w KC VC m pfx F⟩
+  ⟨fun op => sexecOp_eq_sstep w KC VC m op F, fun pfx => scode_deletePrefix w KC VC m pfx F, fun pfx => scode_clear w KC VC m pfx F⟩
 
 /-- Non-vacuity: the translated `Delete` on the variable-length key codec removes exactly the entry of that key, not
-the entries whose keys have its encoding as a prefix; a `Delete` body that calls `DeletePrefix` cannot be translated. -/
-example : (sexecOp false sprog codecVar codec64 [([1], be8 10), ([1, 0], be8 20)] (.delete 1) {}).map (·.st) =
-    some [([1, 0], be8 20)] := by decide
+the entries whose keys have its encoding as a prefix; the translated `Iterate` stops at the undecodable key and reports it. -/
+example : (sexecOp false sprog codecVar codec64 [([1], be8 10), ([1, 0], be8 20)] (.delete 1) {}).st = [([1, 0], be8 20)] ∧
+    (sexecOp false sprog codecVar codec64 [([1], be8 10), ([1, 2, 3], be8 20), ([2], be8 30)] (.iterate [] false 0) {}).out =
+      .iter [(1, 10)] (some .decK) := by decide
 
 end StoreCode
 
